@@ -2,7 +2,7 @@
 C09 — try_sync never blocks, never half-runs and never disturbs the queue.
 -/
 import DesyncModel.Spec
-import DesyncModel.Tables
+import DesyncModel.Tables.TrySync
 import DesyncModel.FactTrySync
 import DesyncModel.Lemmas
 
